@@ -191,3 +191,94 @@ def service_groups_by_first_request_byte(shape):
     H.cover("filed")
     H.check("C06:service-is-filed-under-exactly-one-group", len(sids) == 1)
     H.check("C06:service-is-filed-under-the-first-byte-of-its-request", H.And(len(sids) == 1, sids[0] == first))
+
+
+# ---------------------------------------------------------------------------------------------------------------
+# real descriptions below a real layer: two services that share the constant prefix and differ in their total length,
+# a reserved tail, and a negative response whose NRC-CONST is followed by a parameter without explicit position
+from contracts import build as B  # noqa: E402
+
+NRCS = [0x21, 0x78]
+
+
+def _real_services():
+    a = DiagService.__new__(DiagService)
+    a.short_name = "short"
+    a._request = B.request([B.coded_const("sid", 0x22, 0), B.value_param("x", B.dop("u8", 8), 1),
+                            B.reserved("tail", 8)], "rq_short")
+    a._positive_responses = [B.response([B.coded_const("sid", 0x62, 0), B.value_param("r", B.dop("u8r", 8), 1)],
+                                        "pr_short")]
+    a._negative_responses = [
+        B.response([B.coded_const("sid", 0x7F, 0), B.coded_const("rq_sid", 0x22, 1), B.nrc_const("nrc", NRCS, 2),
+                    B.value_param("retry", B.dop("u8n", 8)), B.value_param("code", B.dop("u8c", 8), 2)],
+                   "nr_short", "NEGATIVE")]
+    b = DiagService.__new__(DiagService)
+    b.short_name = "long"
+    b._request = B.request([B.coded_const("sid", 0x22, 0), B.value_param("ident", B.dop("u16", 16), 1),
+                            B.value_param("y", B.dop("u8y", 8), 3)], "rq_long")
+    b._positive_responses = []
+    b._negative_responses = []
+    return a, b
+
+
+@harness(props=["C06"], strength="B", family=lambda t, s: [{"n": n} for n in range(0, 6)],
+         bound="two real services whose requests share the constant prefix 0x22 (3 bytes with a reserved tail / 4 "
+         "bytes), a positive response and a negative response with an NRC-CONST followed by an unpositioned parameter; "
+         "message of n = 0..5 arbitrary bytes; values of the own encodings symbolic",
+         functions=[DiagLayer.decode, DiagLayer.decode_response, DiagLayer._decode, DiagLayer._find_services_for_uds,
+                    DiagLayer._prefix_tree, DiagService.decode_message],
+         covers=["attributed", "unattributed"], assumes=["A-bitstruct", "A-lib"], crosscheck=False)
+def real_descriptions_below_a_real_layer(n):
+    """with real requests and responses: a message is attributed to exactly the services whose request it matches in
+    constants and length, with the values its bytes hold; own encodings of requests and responses are attributed to
+    their service with the original values"""
+    a, b = _real_services()
+    layer = DiagLayer.__new__(DiagLayer)
+    raw = GhostRaw()
+    raw.services = [a, b]
+    layer.diag_layer_raw = raw
+    message = H.bytes("message", n, n)
+    try:
+        msgs = layer.decode(message)
+    except DecodeError:
+        msgs = []
+    # (decode() considers requests and responses alike; the coding object tells which description matched)
+    want = {
+        "rq_short": n >= 3 and message[0] == 0x22,
+        "rq_long": n >= 4 and message[0] == 0x22,
+        "pr_short": n >= 2 and message[0] == 0x62,
+        "nr_short": n >= 4 and message[0] == 0x7F and message[1] == 0x22 and H.Or(*[message[2] == c for c in NRCS]),
+    }
+    got = {k: [m for m in msgs if m.coding_object.short_name == k] for k in want}
+    H.cover("attributed" if msgs else "unattributed")
+    H.check("C06:interpretations-are-reported-for-exactly-the-matching-services",
+            H.And(*[H.eq(len(got[k]) == 1, want[k]) for k in want], len(msgs) == sum([len(v) for v in got.values()]),
+                  all([m.service is (b if m.coding_object.short_name == "rq_long" else a) for m in msgs])))
+    if got["rq_short"]:
+        H.check("C06:reported-values-are-the-bytes-of-the-message", got["rq_short"][0].param_dict["x"] == message[1])
+    if got["rq_long"]:
+        H.check("C06:reported-values-are-the-bytes-of-the-message",
+                H.And(got["rq_long"][0].param_dict["ident"] == message[1] * 256 + message[2],
+                      got["rq_long"][0].param_dict["y"] == message[3]))
+    if got["nr_short"]:
+        H.check("C06:reported-values-are-the-bytes-of-the-message",
+                H.And(got["nr_short"][0].param_dict["code"] == message[2],
+                      got["nr_short"][0].param_dict["retry"] == message[3]))
+    if n != 0:
+        return
+    # own encodings (once per family)
+    x, r, retry = H.int("x", 0, 255), H.int("r", 0, 255), H.int("retry", 0, 255)
+    code = H.pick("code", NRCS)
+    rq = a._request.encode(x=x)
+    back = [m for m in layer.decode(bytes(rq)) if m.service is a]
+    H.check("C06:own-request-is-attributed-to-its-service-with-the-original-values",
+            H.And(len(back) == 1, all([m.param_dict["x"] == x for m in back])))
+    pos = a._positive_responses[0].encode(coded_request=bytes(rq), r=r)
+    back = layer.decode_response(bytes(pos), bytes(rq))
+    H.check("C06:own-response-is-attributed-through-the-request-with-the-original-values",
+            H.And(len(back) == 1, all([m.service is a and m.param_dict["r"] == r for m in back])))
+    neg = a._negative_responses[0].encode(coded_request=bytes(rq), retry=retry, code=code)
+    back = layer.decode_response(bytes(neg), bytes(rq))
+    H.check("C06:own-response-is-attributed-through-the-request-with-the-original-values",
+            H.And(len(back) == 1, all([m.service is a and m.param_dict["retry"] == retry and
+                                       m.param_dict["code"] == code for m in back])))
